@@ -100,7 +100,14 @@ def check_property(prop, tier, seed, only=None):  # pylint: disable=too-many-loc
                'verdict': res['verdict'], 'paths': res['paths'], 'solver_queries': res['queries'],
                'solver_seconds': res['solver_s'], 'wall': res['wall'], 'twin': res.get('twin')}
         rows.append(row)
-        if res['verdict'] == 'ERROR':
+        row['differential_runs'] = res.get('diff_runs', 0)
+        row['differential_nontrivial'] = res.get('diff_reached', 0)
+        if res.get('diff_failures'):
+            row['verdict'] = 'DIFFERENTIAL-MISMATCH'
+            row['differential_failures'] = res['diff_failures']
+            harness_errors.append((label, 'CONFIRMED symbolically but a native run on concrete arguments fails: %r' % (
+                res['diff_failures'],)))
+        elif res['verdict'] == 'ERROR':
             harness_errors.append((label, res['message']))
         elif res['verdict'] == 'CONFIRMED' and shard.twin and res.get('twin') != 'reachable':
             row['verdict'] = 'VACUOUS'
